@@ -42,13 +42,14 @@ def creates_output(fmode):
 class Case:
     """ninputs, mode, fail = None | (k, s, fmode) | ("ld", fmode); order = tuple of stage indices
     of the failing pipeline sorted by forced termination time; scale multiplies the delays."""
-    def __init__(self, ninputs, mode, fail, order=None, flow="forced", scale=1):
+    def __init__(self, ninputs, mode, fail, order=None, flow="forced", scale=1, inherit=False):
         self.ninputs, self.mode, self.fail, self.flow, self.scale = ninputs, mode, fail, flow, scale
+        self.inherit = inherit      # the driver starts with a child it did not spawn, which exits while stages run
         self.n = MODES[mode][1]
         self.order = tuple(order) if order is not None else tuple(range(self.n))
 
     def key(self):
-        return (self.ninputs, self.mode, self.fail, self.order, self.flow)
+        return (self.ninputs, self.mode, self.fail, self.order, self.flow) + (("inherit",) if self.inherit else ())
 
     def argv(self):
         return MODES[self.mode][0] + NAMES[:self.ninputs]
@@ -160,7 +161,7 @@ class Case:
 
     def describe(self):
         return {"argv": self.argv(), "mode": self.mode, "inputs": self.ninputs, "fail": self.fail,
-                "termination_order": list(self.order), "flow": self.flow, "scale": self.scale,
+                "termination_order": list(self.order), "flow": self.flow, "scale": self.scale, "inherited_child": self.inherit,
                 "stub_script": self.script_and_missing()[0], "missing_tools": list(self.script_and_missing()[1])}
 
     def out_name(self, p):
@@ -288,6 +289,15 @@ def gen_cases(ck):
                         if k == 0:
                             cases.append(Case(nin, mode, (k, s, "spawn"), flow="blocked"))
                     cases.append(Case(nin, mode, (k, s, rng.choice(["exit-before-reading", "SIGSEGV"])), flow="natural"))
+    # an inherited child (unknown pid in the reaping loop) that exits before the failing stage does: the failure of a
+    # stage that is the last of its pipeline to terminate must still be seen
+    for nin, mode in ((1, "c"), (2, "link"), (1, "S"), (1, "emit-qbe")):
+        n = MODES[mode][1]
+        for s in range(n):
+            order = [j for j in range(n) if j != s] + [s]
+            for fm in ("exit-after-half", "SIGKILL", "exit-after-finishing"):
+                cases.append(Case(nin, mode, (0, s, fm), order=order, inherit=True))
+        cases.append(Case(nin, mode, None, inherit=True))
     extra = 120 if ck.quick else 600
     for _ in range(extra):
         nin = rng.choice([1, 2, 3])
@@ -313,10 +323,11 @@ def gen_cases(ck):
 
 def run_case(drv, case, scale=None):
     if scale:
-        case = Case(case.ninputs, case.mode, case.fail, case.order, case.flow, scale)
+        case = Case(case.ninputs, case.mode, case.fail, case.order, case.flow, scale, case.inherit)
     script, missing = case.script_and_missing()
     r = drv.run(case.argv(), script=script, files=NAMES[:case.ninputs], scan=True, missing=missing,
-                timeout=max(6.0, 25 * case.clean_time()))
+                timeout=max(6.0, 25 * case.clean_time()),
+                inherit_ms=(BASE // 2) * case.scale if case.inherit else None)
     return case, observe(case, r)
 
 
